@@ -1,0 +1,19 @@
+//go:build verif
+
+package tcp
+
+import "sync/atomic"
+
+var verifSeqNumOverride atomic.Pointer[uint32]
+
+// VerifSetSeqNum pins the default-mode sequence number of drivers created afterwards (nil = random again).
+func VerifSetSeqNum(v *uint32) {
+	verifSeqNumOverride.Store(v)
+}
+
+func verifSeqNum(seqNum uint32) uint32 {
+	if v := verifSeqNumOverride.Load(); v != nil {
+		return *v
+	}
+	return seqNum
+}
